@@ -112,18 +112,30 @@ FLOORS = {
                            'reject-class:break-in-command': 1400, 'reject-class:truncation/no-final-newline': 3900,
                            'reject:trunc-multi:first': 910, 'reject:trunc-multi:middle': 3100,
                            'reject:trunc-multi:last': 3100}},
-    'thorough': {'nontrivial': 1100000,
-                 'monitors': {'M.apply': 2100000, 'M.reject': 1750000},
-                 'counters': {'cmd:a@0': 260000, 'cmd:a@end': 120000, 'cmd:a@mid': 135000, 'cmd:c1': 270000,
-                              'cmd:cN': 155000, 'cmd:d1': 165000, 'cmd:dN': 115000, 'cmd:c@first': 230000,
-                              'cmd:d@first': 160000, 'cmd:d@last': 190000, 'cmd:c@last': 290000,
-                              'shape:adjacent-hunks': 165000, 'shape:old-empty': 125000, 'shape:new-empty': 115000,
-                              'shape:full-replace': 140000, 'shape:hunks>=2': 255000, 'reject:truncation': 530000,
-                              'reject:command': 350000, 'mode:str': 1050000, 'mode:bytes': 1050000,
-                              'src:list': 630000, 'src:iter': 630000, 'src:file': 630000}},
+    'thorough': {'nontrivial': 1700000,
+                 'monitors': {'M.apply': 2500000, 'M.reject': 2700000, 'M.apply.brk': 250000, 'M.reject.brk': 480000},
+                 'counters': {'cmd:a@0': 310000, 'cmd:a@end': 140000, 'cmd:a@mid': 170000, 'cmd:c1': 330000, 'cmd:cN':
+                              190000, 'cmd:d1': 200000, 'cmd:dN': 130000, 'cmd:c@first': 280000, 'cmd:d@first': 190000,
+                              'cmd:d@last': 230000, 'cmd:c@last': 350000, 'shape:adjacent-hunks': 200000,
+                              'shape:old-empty': 150000, 'shape:new-empty': 140000, 'shape:full-replace': 170000,
+                              'shape:hunks>=2': 310000, 'shape:hunks=3+': 62000, 'reject:truncation': 960000,
+                              'reject:command': 420000, 'mode:str': 1200000, 'mode:bytes': 1200000, 'src:list': 850000,
+                              'src:iter': 850000, 'src:file': 850000, 'src:disk': 100000, 'brk:apply': 120000,
+                              'brk:apply/tail-is-dot': 77000, 'brk:apply/head-is-dot': 35000,
+                              'brk:apply/break-before-newline': 140000, 'brk:apply/old-line-kept': 46000,
+                              'brk:apply/text-blocks>=2': 31000, 'brk:apply/enc:latin-1': 22000, 'brk:apply/enc:utf-8':
+                              100000, 'brk:apply/src:list': 34000, 'brk:apply/src:iter': 35000, 'brk:apply/src:file':
+                              34000, 'brk:apply/src:disk': 23000, 'brk:apply/U+000D': 28000, 'brk:apply/U+000B': 28000,
+                              'brk:apply/U+000C': 28000, 'brk:apply/U+001C': 28000, 'brk:apply/U+001D': 28000,
+                              'brk:apply/U+001E': 28000, 'brk:apply/U+0085': 28000, 'brk:apply/U+2028': 28000,
+                              'brk:apply/U+2029': 28000, 'brk:reject': 240000, 'brk:reject/command': 63000,
+                              'brk:reject/truncation': 170000, 'brk:reject/cut-after-tail-dot-line': 36000,
+                              'brk:reject/enc:latin-1': 44000, 'reject-class:break-in-command': 40000,
+                              'reject-class:truncation/no-final-newline': 110000, 'reject:trunc-multi:first': 29000,
+                              'reject:trunc-multi:middle': 98000, 'reject:trunc-multi:last': 98000}},
 }
-DIFFE_FLOOR = {'quick': 2100, 'thorough': 100000}      # only demanded when `diff` is installed
-DIFFE_BRK_FLOOR = {'quick': 160, 'thorough': 5000}     # ... of which scripts whose text blocks carry an embedded break
+DIFFE_FLOOR = {'quick': 2100, 'thorough': 120000}      # only demanded when `diff` is installed
+DIFFE_BRK_FLOOR = {'quick': 160, 'thorough': 8500}     # ... of which scripts whose text blocks carry an embedded break
 
 ALPHA = ['a', 'b', 'c', '', 'x y', '..', '. ', ' .', '.x', '...', '1a', '2,3d', 'd', '0a', '3c', '1,2c', 'a.',
          'é', '١a', '\t', 'x\r', '.\r', 's/.//', 'w', 'q']
@@ -848,15 +860,21 @@ def run_case(ctx, case):
         raise ValueError('unknown case kind %r' % (kind,))
 
 
-LEVEL_TEXT = ('Runtime monitoring: patch_lines(lines, patches_from_ed_script(S)) of the live tree is executed on 5.7e4 (quick) '
-              '/ 2.1e6 (thorough) (old, new) pairs, as str and as bytes, with S derived independently (difflib opcodes -> '
-              'a/c/d in descending order; `diff -e` output) and handed over as list, iterator and file object; the mutated '
-              'list is compared with new.  5e4 / 1.75e6 scripts with exactly one corrupted command or a text block cut '
-              'before its "." must raise ValueError.  A complete sub-space (old <= 4 lines, new <= 5 lines) is enumerated. '
-              'Held-on-observed, not a proof.')
+LEVEL_TEXT = ('Runtime monitoring: patch_lines(lines, patches_from_ed_script(S)) of the live tree is executed on 7.5e4 (quick) '
+              '/ 2.5e6 (thorough) (old, new) pairs, as str and as bytes (UTF-8; Latin-1 for part of the line-boundary class), '
+              'with S derived independently (difflib opcodes -> a/c/d in descending order; `diff -e` output) and handed over '
+              'as list, iterator, in-memory file and on-disk file object; the mutated list is compared with new element by '
+              'element.  9e4 / 2.8e6 scripts with exactly one corrupted command or a text block cut before its "." must raise '
+              'ValueError (incl. scripts with >= 3 text blocks cut in the first / a middle / the last block).  1e4 / 2.5e5 of '
+              'the applied and 2e4 / 4.8e5 of the rejected scripts carry a non-LF line-boundary character (CR VT FF FS GS RS '
+              'NEL LS PS) in the middle of a line.  Two complete sub-spaces are enumerated (old <= 4 lines x new <= 5 lines; '
+              '9 boundary characters x 14 templates x 19 placements).  Held-on-observed, not a proof.')
 LEVEL_NOTE = ('Trusted: CPython, difflib, vp.models.edscript (deriver + strict reference interpreter; every script is '
-              'self-checked against it, and GNU diff -e is a second source). Lines are newline-terminated and never a lone '
-              '".". Semantically odd but well-formed commands (0d, out-of-range addresses) are outside the oracle.')
+              'self-checked against it, and GNU diff -e is a second source). Lines end in exactly one "\\n" (everything before it '
+              'is content, whatever str.splitlines would make of it) and are never a lone ".". File sources never translate '
+              'or re-split (read back before use). Semantically odd but well-formed commands (0d, out-of-range addresses) are '
+              'outside the oracle.')
 TECHNIQUE = ('runtime monitoring: boundary oracle M on patch_lines(patches_from_ed_script(S)) - result must equal the target '
-             'lines for independently derived scripts (M.apply, str/bytes x list/iterator/file), and ValueError must be raised '
-             'for scripts with one corrupted command or an unterminated text block (M.reject)')
+             'lines, element by element, for independently derived scripts (M.apply, str/bytes x list/iterator/file/on-disk '
+             'file, incl. content with embedded non-LF line-boundary characters), and ValueError must be raised for scripts '
+             'with one corrupted command or an unterminated text block, single- and multi-block (M.reject)')
